@@ -8,6 +8,7 @@ export GOFLAGS=-mod=mod GOPROXY=off GOSUMDB=off GOTOOLCHAIN=local CGO_ENABLED=1
 mkdir -p .build .run replay evidence
 cp /repo/go.sum harness/go.sum
 cd harness
+go run ./cmd/apigen /repo > mon/c19/reg/registry_gen.go
 go build -tags verif -o ../.build/vcheck ./cmd/vcheck
 go build -tags verif -race -o ../.build/vcheck-race ./cmd/vcheck
 go test -count=1 ./oracle/... 
